@@ -46,12 +46,17 @@ def State.edgeCountQ (s : State) : Nat := if s.directed then s.column.length els
 def slice {α : Type} (l : List α) (r : Nat × Nat) : Option (List α) :=
   if r.1 ≤ r.2 ∧ r.2 ≤ l.length then some ((l.take r.2).drop r.1) else none
 
-/-- `neighbors_range(a)`: `self.row[a]` panics for `a > node_count`; for `a = node_count` the
-`.get(a + 1)` is `None` and the range is `column.len()..column.len()` (empty, no panic). -/
+/-- `neighbors_range(a)` = `self.row[a] .. self.row[a + 1]`.  `row` has `node_count + 1` entries, so BOTH
+indexings succeed exactly for an existing node `a < node_count`; for every `a ≥ node_count` the call is the
+documented panic ("Panics if the node `a` does not exist").  (Up to /repo commit aadb875 — finding D32 — the end
+was `row.get(a + 1).unwrap_or(column.len())`, which answered the empty range for `a = node_count`.) -/
 def neighborsRange (s : State) (a : Nat) : Option (Nat × Nat) :=
   match s.row[a]? with
   | none => none
-  | some start => some (start, (s.row[a + 1]?).getD s.column.length)
+  | some start =>
+    match s.row[a + 1]? with
+    | none => none
+    | some stop => some (start, stop)
 
 /-- `neighbors_of(a)` = `(r.start, &self.column[r])` -/
 def neighborsOf (s : State) (a : Nat) : Option (Nat × List Nat) :=
